@@ -29,6 +29,18 @@ BODIES = [
     ('(hs)h', lambda f: [[next(f), 'x'], next(f)], 2),
     ('s', lambda f: ['plain'], 0),
 ]
+# descriptors inside variants: txdbus has no wrapper type with which a
+# sender could say "this variant holds a descriptor", but peers written with
+# other libraries send them (an 'h' in an a{sv} options dictionary is
+# common), so these are received only
+NSEND = len(BODIES)
+BODIES += [
+    ('v', lambda f: [R.Var('h', next(f))], 1),
+    ('a{sv}h', lambda f: [[['k', R.Var('h', next(f))],
+                           ['n', R.Var('s', 'x')]], next(f)], 2),
+    ('hav', lambda f: [next(f), [R.Var('h', next(f)),
+                                 R.Var('(sh)', ['y', next(f)])]], 3),
+]
 
 
 def _fd_values(sig, vals):
@@ -45,6 +57,8 @@ def _fd_values(sig, vals):
         elif c in '({':
             for ft, fv in zip(ch, v):
                 walk(ft, fv)
+        elif c == 'v':
+            walk(R.single_type(v.sig), v.value)
     for t, v in zip(R.parse_sig(sig), vals):
         walk(t, v)
     return out
@@ -281,7 +295,7 @@ def _task_recv(task):
     nb = len(BODIES)
     streams = [(i,) for i in range(nb)] + \
         list(itertools.product(range(nb), repeat=2)) + \
-        [t for t in itertools.product(range(nb), repeat=3)
+        [t for t in itertools.product(range(NSEND), repeat=3)
          if sum(BODIES[i][2] for i in t) >= 2
          and (not quick or (t[0] + 3 * t[1] + 5 * t[2]) % 4 == 0)]
     n_exec = 0
@@ -305,7 +319,7 @@ def _task_recv(task):
 def _task_send(task):
     part, nparts = task
     res = core.Result()
-    nb = len(BODIES)
+    nb = NSEND
     seqs = [(i,) for i in range(nb)] + \
         list(itertools.product(range(nb), repeat=2)) + \
         list(itertools.product(range(nb), repeat=3))
@@ -330,7 +344,8 @@ def _task_send(task):
 def run(ctx):
     ctx.rule = (
         'sender: every sequence of <= 3 calls over %d bodies (none, h, hh, '
-        'shs, ah with 0/2/3 entries, (hs)h, s) through callRemote on a UNIX '
+        'shs, ah with 0/2/3 entries, (hs)h, s; received only, in streams of '
+        '<= 2: v, a{sv}h, hav holding descriptors) through callRemote on a UNIX '
         'transport; the transport log is grouped by write and compared. '
         'receiver: the same sequences, as method calls and with returns, '
         'signals and errors carrying the descriptors (all of length <= 2, those of length 3 '
@@ -341,7 +356,7 @@ def run(ctx):
         'message; a trailing probe message checks that exactly the declared '
         'count was consumed. state = message sequence; transition = one '
         'executed schedule; non-trivial = at least one descriptor arrives '
-        'after a read' % (len(BODIES), ' (a quarter)' if ctx.quick else '',
+        'after a read' % (NSEND, ' (a quarter)' if ctx.quick else '',
                           '' if ctx.quick else ' / pairs near boundaries'))
     ctx.bounds = {'max_messages': 3, 'max_cuts': 1 if ctx.quick else 2}
     ctx.assumptions = ['descriptors arrive in sending order, each no later '
